@@ -634,6 +634,40 @@ the real iterator called (items + 3) times against the call-by-call model Parse.
 		crate::parse::check_calls(cx, &sample);
 		cx.report.hit_n("programs with byte order marks / stray control and space characters", inputs.len() as u64);
 	}
+	// escape-shaped text inside character and string literals followed by multi-byte characters at every offset: a backslash, any
+	// printable ASCII character (an escape letter of today or of a future extension: \x, \u, \0 …), 0-3 digit / brace characters, then
+	// a 2-, 3- or 4-byte character or a damaged one — byte-offset arithmetic on escapes must not split a character (no panic),
+	// and the model must agree on what is accepted
+	{
+		let fillers: [&[u8]; 9] = [b"", b"4", b"41", b"{", b"{4", b"{41", b"4{", b"0", b"00"];
+		let wide: [&[u8]; 5] = ["\u{e9}".as_bytes(), "\u{20ac}".as_bytes(), "\u{1f600}".as_bytes(), b"\xC3", b"\xE2\x82"];
+		let mut inputs: Vec<Vec<u8>> = Vec::new();
+		for q in [b'\'', b'"']
+		{
+			for letter in 0x21u8..=0x7E
+			{
+				for f in fillers
+				{
+					for w in wide
+					{
+						for tail in [&b""[..], &b"}"[..]]
+						{
+							let mut t = vec![q, b'\\', letter];
+							t.extend_from_slice(f);
+							t.extend_from_slice(w);
+							t.extend_from_slice(tail);
+							t.push(q);
+							inputs.push(t);
+						}
+					}
+				}
+			}
+		}
+		let lines: Vec<String> = inputs.iter().map(|b| format!("lex tok {}", hex(b))).collect();
+		let replies = cx.model.ask_many(&lines);
+		for (b, r) in inputs.iter().zip(replies.iter()) {c10_single(cx, b, r);}
+		cx.report.hit_n("escape-shaped literals followed by multi-byte characters", inputs.len() as u64);
+	}
 	for s in ["/* x */ \u{e9}", "\"a\nb\"", "mov r0, 10 \"ab\" \"x"]
 	{
 		let lx = real_lex(s.as_bytes());
